@@ -8,6 +8,7 @@ THEOREMS = [
     'Sbepp.Properties.C01.encode_outside_untouched',
     'Sbepp.Properties.C01.setter_writes_value',
     'Sbepp.Properties.C01.setter_frame',
+    'Sbepp.Properties.C01.accepted_layout_sorted',
     'Sbepp.Properties.C02.scalar_roundtrip',
 ]
 
@@ -36,8 +37,8 @@ def run(chk):
         chk.report_unproved('theorem', chk.failed_obligations)
     chk.assumptions += [
         'Spec.encL is the byte-level meaning of the script; the generated setters are tied to it by the differential '
-        'check only', 'leaf order/disjointness (Sorted) is a hypothesis of setter_writes_value, not yet proved from '
-        'the resolver model']
+        'check only', 'leaf order/disjointness (Sorted) is proved for every layout accepted by the validator model '
+        '(accepted_layout_sorted); the model is tied to the real validator by the correspondence check']
 
 
 def replay(chk, rep):
